@@ -9,6 +9,7 @@ EXPLANATION = ("Decides on the MIR of the current tree: the u64 carrier is lossl
                "most-recent-store index (N4). Numeric equality for all operands relies on std's semantics of wrapping_add etc. (trusted).")
 RULE_TEXT = "rule instances = Numeric impls, (type, fetch-op) closures, front-end methods; non-trivial when matched to a concrete MIR body"
 LEVEL_NOTE = "necessary conditions only; std operator semantics trusted"
+WITNESSES = ['C12WithMutNeedsMut']
 
 
 def run(ctx):
